@@ -118,6 +118,46 @@ def count_range(body, blocks, start=0):
     return (r[0], math.inf if inf else r[1])
 
 
+class FieldSet:
+    """A field of a model value set by construction (`LabelPair { name: Some(n), .. }`): looks like the call site of the setter (args = [the value built, what the field
+    receives]) to rules that ask which value a field gets."""
+    def __init__(self, body, bi, rv, recv, value, span):
+        self.body, self.bb, self.rv = body, bi, rv
+        self.args = [recv, value]
+        self.span = span
+        self.callee = self.callee_args = "<aggregate>"
+        self.dest = None
+
+    def matches(self, pat):
+        return False
+
+    def result_term(self):
+        return ("agg-set", self.bb)
+
+    def __repr__(self):
+        return "FieldSet(bb%d)" % self.bb
+
+
+def field_sets(body, adt_name, field, setters):
+    """Sites at which field `field` of a model type (`adt_name`: last path segment) gets its value: calls of its setter, and aggregates that build the value with the
+    field filled in (`Some(v)` in the protobuf model, `v` in the plain one)."""
+    out = list(body.calls_to(setters))
+    for bi in sorted(body.reachable_blocks()):
+        for st in body.blocks[bi]["stmts"]:
+            rv = st.get("rv") or {}
+            if st.get("k") != "assign" or rv.get("k") != "agg" or rv.get("agg") != "adt" or (rv.get("adt") or "").split("::")[-1] != adt_name or field not in (rv.get("fields") or []):
+                continue
+            v = body.term_operand(rv["ops"][list(rv["fields"]).index(field)])
+            pv = peel(v, transparent=[])
+            if isinstance(pv, tuple) and pv and pv[0] == "agg" and pv[2].endswith("Option::Some") and pv[3]:
+                v = pv[3][0]
+            elif isinstance(pv, tuple) and pv and pv[0] == "agg" and pv[2].endswith("Option::None"):
+                continue
+            recv = body.term_rvalue(rv, (bi, 0))
+            out.append(FieldSet(body, bi, rv, recv, v, (st.get("sp") or {}).get("at") or body.raw["span"]["at"]))
+    return out
+
+
 def resolve_capture(t, caps):
     """What a closure-body term that reads a captured variable denotes where the closure was made: `(*_1).k` is caps[k]; when caps[k] is itself a closure value
     (a closure handed on to a helper and expanded into this body) `((*_1).k).j` is that closure's j-th capture, and so on.  None when t is not such a read."""
